@@ -2,7 +2,7 @@
 import re, sys, json
 from tok_common import TokError, imm, split_ops, parse_mark
 
-REG = re.compile(r"^(X([0-9]|[12][0-9]|30)|SP|XZR)$")
+REG = re.compile(r"^(X([0-9]|[12][0-9]|30)|SP|XZR)$", re.I)     # mnemonics and register names are case-insensitive, labels are not
 IDENT = re.compile(r"^[A-Za-z_.$][\w.$]*$")
 MEM = re.compile(r"^\[\s*(\w+)\s*(,\s*#?(-?\d+)\s*)?\](!)?$")
 KNOWN = {"ADD", "SUB", "MUL", "SDIV", "MSUB", "B", "BR", "BL", "ADR", "MOV", "MOVZ", "MOVN", "MOVK", "LDR", "LDP",
@@ -14,16 +14,16 @@ ALIASES = {"B.EQ": "BEQ", "B.NE": "BNE", "B.LT": "BLT", "B.LE": "BLE", "B.GT": "
 def operand(s):
     s = s.strip()
     if REG.match(s):
-        return {"k": "reg", "r": s}
+        return {"k": "reg", "r": s.upper()}
     m = MEM.match(s)
     if m:
         if not REG.match(m.group(1)):
             raise TokError("memory base is not a register: " + s)
-        return {"k": "mem", "base": m.group(1), "off": int(m.group(3) or 0), "pre": bool(m.group(4)),
+        return {"k": "mem", "base": m.group(1).upper(), "off": int(m.group(3) or 0), "pre": bool(m.group(4)),
                 "hasoff": m.group(3) is not None}
     if re.match(r"^#?-?\d+$", s):
         return imm(s.lstrip("#"))
-    m = re.match(r"^LSL\s+#?(\d+)$", s)
+    m = re.match(r"^LSL\s+#?(\d+)$", s, re.I)
     if m:
         return {"k": "lsl", "n": int(m.group(1))}
     if IDENT.match(s):
@@ -49,13 +49,13 @@ def tokenize(text):
             out.append({"op": "label", "l": l})
             continue
         m = re.match(r"^([\w.]+)(\s+(.*))?$", code)
-        if m and m.group(1) in ALIASES:
-            code = ALIASES[m.group(1)] + code[len(m.group(1)):]
+        if m and m.group(1).upper() in ALIASES:
+            code = ALIASES[m.group(1).upper()] + code[len(m.group(1)):]
             m = re.match(r"^([\w.]+)(\s+(.*))?$", code)
-        if not m or m.group(1) not in KNOWN:
+        if not m or m.group(1).upper() not in KNOWN:
             raise TokError("line %d: unknown instruction %r" % (ln, line))
         ops = [operand(x) for x in split_ops(m.group(3) or "")] if m.group(3) else []
-        out.append({"op": m.group(1), "a": ops})
+        out.append({"op": m.group(1).upper(), "a": ops})
     return out, directives
 
 if __name__ == "__main__":
